@@ -81,6 +81,12 @@ CHECKS["C11"] = dict(
     note="cell widths in {1,2}; bounds and ordering on positive data only (as stated)",
     technique="TLA+ reference means + TLC trace validation of lifted face values")
 
+CHECKS["C07"] = dict(
+    text="For seeded configurations with exactly (rationally) divergence-free velocity fields - uniform Cartesian, q/r and q/r^2 radial, discrete stream functions with integer node values on 2D grids and on planes of 3D grids, zero wall-normal velocity - D in {0,1,3,1000} per face, beta >= 0 and BC kinds {Dirichlet, no-flux, periodic}, TLC (FVTraceOps) checks on the lifted real matrices the M-matrix sign structure that implies the discrete maximum principle (non-positive off-diagonals incl. ghost columns, non-negative diagonal, zero row sums of -diffusion+upwind, premise div u = 0 exactly), and checks the observed min/max of three real solvePDE steps per dt over 8 decades against the hull of previous values and Dirichlet data (fixed-point integers).",
+    ref="DESIGN.md 5/C07",
+    note="the hull clause is a floating-point observation with 2e-6 slack; the sign-structure clause is exact; central convection and TVD corrections are outside the property",
+    technique="TLA+ sign-structure predicate evaluated by TLC on lifted matrices + TLC check of observed step bounds")
+
 NOT_APPLICABLE = {
  "C02": "asymptotic convergence order under refinement: no reals/limits in TLA+, exact lifting does not survive solves on refined grids (DESIGN 8)",
 }
